@@ -119,8 +119,13 @@ def prop(ctx, case):
     ctx.evaluation()
     if bool(sol) != bool(sol0):
         # a definite answer is needed on both sides
-        z0 = adapter._get(h0.solver, "_solver")
-        if "unknown" in (str(z0.check()),):
+        # a 'no solution' answer is a verdict only if a re-check gives a definite unsat (otherwise z3 gave up)
+        failed = h0 if not sol0 else h
+        try:
+            definite = str(adapter._get(failed.solver, "_solver").check()) == "unsat"
+        except Exception:
+            definite = False
+        if not definite:
             ctx.inconclusive += 1
             return
         viol("debug_mode_changes_the_verdict", {"debug": bool(sol), "plain": bool(sol0)})
